@@ -236,6 +236,12 @@ def run(repo: Repo, L: Ledger, tier: str):
     ra, la = reader_rows(repo, pa)
     rt, lt = reader_rows(repo, pt)
 
+    L.rule("T11", "no formatter / parser cache keyed on less than the cached text depends on")
+    from .shared import cache_key_complete
+
+    n_c = sum(cache_key_complete(L, "T11", f_) for f_ in (fa, ft, pa, pt))
+    if n_c == 0:
+        L.ok("T11", "format/parser", "no per-row caches in the four codec functions", fm.relpath)
     _t1(repo, L, fa, ft, pa, pt, wa, wt, ra, rt)
     _t2(repo, L, ft, pt)
     _t3_agp(L, fa, pa, wa, ra)
@@ -715,6 +721,8 @@ def _t8(repo, L):
     want_out = {"AGP": "format_agp", "TPF": "format_tpf"}
     for iv in ("AGP", "TPF", "XXX"):
         for ov in ("AGP", "TPF", "XXX"):
+            if len(ps) < 6:
+                raise AnalysisError(f"process_fh has {len(ps)} parameters (in/out handles and formats, name, qc flag expected): dispatch not understood")
             env = {in_p: iv, out_p: ov, ps[5]: False}
             res = run_paths(proc.node.body, env, loop_iters=(0,))
             if len(res) != 1:
